@@ -3,6 +3,7 @@ package sim
 import (
 	"fmt"
 	"sort"
+	"strconv"
 	"strings"
 	"testing"
 )
@@ -30,6 +31,74 @@ type c01Meta struct {
 	Injected bool      `json:"injected"`
 	FileTabs []string  `json:"file_tabs"` // file tables existing and committed after the whole program
 	Rows     int       `json:"rows"`
+	Files    []string  `json:"files,omitempty"` // file names of t0 and t1 (their extension is their format)
+}
+
+// benignTableAs re-writes a header + rows CSV text without quotes in another
+// format; it returns the file extension and the contents.
+func benignTableAs(csvText, format string) (string, string) {
+	lines := strings.Split(strings.TrimRight(csvText, "\n"), "\n")
+	hdr := strings.Split(lines[0], ",")
+	var b strings.Builder
+	switch format {
+	case "tsv":
+		return ".tsv", strings.ReplaceAll(csvText, ",", "\t")
+	case "ltsv":
+		for _, l := range lines[1:] {
+			f := strings.Split(l, ",")
+			for i := range f {
+				if i > 0 {
+					b.WriteString("\t")
+				}
+				b.WriteString(hdr[i] + ":" + f[i])
+			}
+			b.WriteString("\n")
+		}
+		return ".ltsv", b.String()
+	case "json", "jsonl":
+		if format == "json" {
+			b.WriteString("[")
+		}
+		for k, l := range lines[1:] {
+			f := strings.Split(l, ",")
+			if k > 0 && format == "json" {
+				b.WriteString(",")
+			}
+			b.WriteString("{")
+			for i := range f {
+				if i > 0 {
+					b.WriteString(",")
+				}
+				// (the key column stays a string: csvq does not match the integer 1 of a
+				// REPLACE ... USING (id) with a JSON number 1 - value-equality questions
+				// belong to other properties)
+				if _, err := strconv.Atoi(f[i]); err == nil && hdr[i] != "id" {
+					fmt.Fprintf(&b, "%q:%s", hdr[i], f[i])
+				} else {
+					fmt.Fprintf(&b, "%q:%q", hdr[i], f[i])
+				}
+			}
+			b.WriteString("}")
+			if format == "jsonl" {
+				b.WriteString("\n")
+			}
+		}
+		if format == "json" {
+			b.WriteString("]\n")
+			return ".json", b.String()
+		}
+		return ".jsonl", b.String()
+	case "fixed":
+		// generous widths: values grow during a procedure (n * 2, n + 1000, longer words)
+		for _, l := range lines {
+			for _, f := range strings.Split(l, ",") {
+				fmt.Fprintf(&b, "%-20s", f)
+			}
+			b.WriteString("\n")
+		}
+		return ".txt", b.String()
+	}
+	return ".csv", csvText
 }
 
 func c01Table(rows int, off int) string {
@@ -52,6 +121,7 @@ type c01gen struct {
 	lastCom  int
 	nCreated int
 	uniq     int
+	csvTabs  []string // of t0 / t1: the ones kept as CSV files (ALTER TABLE ... SET of CSV attributes)
 }
 
 func (g *c01gen) names(m map[string]bool) []string {
@@ -133,9 +203,47 @@ func genC01(seed uint64) (*Scenario, *c01Meta) {
 	g := &c01gen{r: r, cur: map[string]bool{"t0": true, "t1": true}, com: map[string]bool{"t0": true, "t1": true}, extra: map[string]bool{}, extraCom: map[string]bool{}}
 	m := &c01Meta{Rows: r.Range(0, 8)}
 	sc := &Scenario{Prop: "C01"}
+	// the format of a table is part of "all initial table contents": 40 % of the
+	// scenarios keep one or both tables in another format than CSV
+	fr := Sub(seed, "c01-formats")
+	f0, f1 := "csv", "csv"
+	if fr.Bool(0.4) {
+		// (not fixed-length: what csvq writes in that format does not read back as the
+		// same table - automatic delimiter positions, columns added by ALTER TABLE -,
+		// which is the round-trip property C02, not this one)
+		f0 = fr.PickS("tsv", "ltsv", "json", "jsonl")
+		if fr.Bool(0.4) {
+			f1 = fr.PickS("tsv", "ltsv", "json", "jsonl")
+		}
+	}
+	rows1 := r.Range(0, 8)
+	if f0 != "csv" && f0 != "tsv" && f0 != "fixed" && m.Rows == 0 {
+		m.Rows = 1 // formats without a header line: an empty file has no columns
+	}
+	if f1 != "csv" && f1 != "tsv" && f1 != "fixed" && rows1 == 0 {
+		rows1 = 1
+	}
+	// formats without a header line lose their columns when the last row goes
+	// (LTSV refuses to write, JSON writes []): two rows no statement deletes
+	anchor := func(f, text string) string {
+		if f == "ltsv" || f == "json" || f == "jsonl" {
+			return text + "50,1,owl\n51,2,pig\n"
+		}
+		return text
+	}
+	e0, c0 := benignTableAs(anchor(f0, c01Table(m.Rows, 0)), f0)
+	e1, c1 := benignTableAs(anchor(f1, c01Table(rows1, 2)), f1)
+	m.Files = []string{"t0" + e0, "t1" + e1}
+	g.csvTabs = nil
+	if f0 == "csv" {
+		g.csvTabs = append(g.csvTabs, "t0")
+	}
+	if f1 == "csv" {
+		g.csvTabs = append(g.csvTabs, "t1")
+	}
 	sc.Files = []FileSpec{
-		{Name: "t0.csv", Content: c01Table(m.Rows, 0)},
-		{Name: "t1.csv", Content: c01Table(r.Range(0, 8), 2)},
+		{Name: "t0" + e0, Content: c0},
+		{Name: "t1" + e1, Content: c1},
 		{Name: "bystander.csv", Content: "a,b\n1,2\n"},
 		{Name: "inc0.sql", Content: "UPDATE t0 SET n = n + 10 WHERE id < 3;\n"},
 		{Name: "inc1.sql", Content: "INSERT INTO t1 (id, n, s) VALUES (901, 9, 'src');\nUPDATE t1 SET n = n + 1 WHERE id = 901;\n"},
@@ -159,7 +267,11 @@ func genC01(seed uint64) (*Scenario, *c01Meta) {
 		switch k := r.Intn(21); {
 		case k == 18:
 			// attributes of the written file are part of the transaction too
-			t := []string{"t0", "t1"}[r.Intn(2)]
+			if len(g.csvTabs) == 0 {
+				g.lines = append(g.lines, g.dml())
+				continue
+			}
+			t := g.csvTabs[r.Intn(len(g.csvTabs))]
 			g.lines = append(g.lines, fmt.Sprintf("ALTER TABLE %s SET %s;", t, r.PickS("ENCLOSE_ALL TO TRUE", "LINE_BREAK TO CRLF", "LINE_BREAK TO LF", "ENCLOSE_ALL TO FALSE", "ENCODING TO UTF8M", "ENCODING TO UTF8")))
 		case k == 19:
 			// statements read from a file of the repository
@@ -278,6 +390,9 @@ func genC01(seed uint64) (*Scenario, *c01Meta) {
 	}
 	cpu := r.Pick(1, 1, 2, 4)
 	sc.Procs = []ProcSpec{{Program: strings.Join(g.lines, "\n"), CPU: cpu, WaitTimeoutS: 10.0000001, RetryDelayNs: 10001009, Quiet: true, Format: "CSV"}}
+	if f0 == "fixed" || f1 == "fixed" {
+		sc.Procs[0].Flags = map[string]string{"IMPORT_FORMAT": "FIXED"}
+	}
 	sc.Meta = map[string]string{"workload": mustJSON(m)}
 	sc.Knobs = Knobs{RowStride: 1, Pool: "lifo", MinPerCore: r.Pick(0, 2)}
 	if strings.Contains(strings.Join(g.lines, "\n"), "SOURCE `") {
@@ -423,6 +538,12 @@ func (c01) Eval(t *testing.T, c *Case, dec func(int) *Decider) *Outcome {
 	default:
 		o.Stats.probe("end:error")
 	}
+	if ending == "normal" && p.ExitCode != 0 && strings.Contains(p.ErrText, "value is too long") && sc.Procs[0].Flags["IMPORT_FORMAT"] == "FIXED" {
+		// a value outgrew its column of a fixed-length table: COMMIT refuses with a
+		// documented error, which makes this an ending by error
+		ending = "fail"
+		o.Stats.probe("fixed-length-commit-refused")
+	}
 	if (ending == "normal") && p.ExitCode != 0 {
 		o.viol(prop, "scenario", "scenario-error:"+errClass(p.ErrText), "a procedure that should end normally failed: "+p.ErrText)
 		return o
@@ -538,7 +659,7 @@ func (c01) Eval(t *testing.T, c *Case, dec func(int) *Decider) *Outcome {
 			st = append(st, fmt.Sprintf("ECHO '@T 0 %s';", tb), fmt.Sprintf("SELECT * FROM %s;", tb))
 		}
 		st = append([]string{"ECHO '@D 0';"}, append(st, "ECHO '@X 0';")...)
-		fsc.Procs = []ProcSpec{{Program: strings.Join(st, "\n"), CPU: 1, WaitTimeoutS: 1, RetryDelayNs: 10001009, Quiet: true, Format: "CSV"}}
+		fsc.Procs = []ProcSpec{{Program: strings.Join(st, "\n"), CPU: 1, WaitTimeoutS: 1, RetryDelayNs: 10001009, Quiet: true, Format: "CSV", Flags: sc.Procs[0].Flags}}
 		fres, _ := Execute(t, fsc, dec(1))
 		o.Runs++
 		fd, fdone := parseDumps(fres.Procs[0].Stdout)
@@ -568,7 +689,11 @@ func (c01) Eval(t *testing.T, c *Case, dec func(int) *Decider) *Outcome {
 			ares, _ := Execute(t, &asc, dec(2))
 			o.Runs++
 			if ares.Procs[0].ExitCode == 0 && ares.Hang == "" {
-				for _, name := range []string{"t0.csv", "t1.csv"} {
+				names := meta.Files
+				if len(names) == 0 {
+					names = []string{"t0.csv", "t1.csv"}
+				}
+				for _, name := range names {
 					if a, b := res.Final[name].Data, ares.Final[name].Data; a != b {
 						o.viol(prop, "all-or-nothing", "attributes-not-written", fmt.Sprintf("%s is written differently when the ALTER TABLE ... SET statements of a transaction stand after other changes to the table than when they stand first: %s", name, firstDiff(b, a)))
 					}
